@@ -1,7 +1,7 @@
 #!/usr/bin/env python3
 """Print the markdown table of seeded changes and which stage caught each (from seeded/*/meta.json)."""
 import json, os, re
-root = "/verif/seeded"
+root = os.path.join(os.path.dirname(os.path.dirname(os.path.abspath(__file__))), "seeded")
 rows = []
 for d in sorted(os.listdir(root), key=lambda s: (s.split("-")[0], int(s.split("-")[1]))):
     m = json.load(open(os.path.join(root, d, "meta.json")))
@@ -18,9 +18,12 @@ for d in sorted(os.listdir(root), key=lambda s: (s.split("-")[0], int(s.split("-
             if mm:
                 extra += f" S3 `{mm.group(1)}::{mm.group(2)}`;"
         if vl:
-            v = vl[0].split("#", 1)[-1].strip()
+            conc = [x for x in vl if not x.rstrip().endswith("no-failing-input-found")]
+            v = (conc or vl)[0].split("#", 1)[-1].strip()
             extra += " " + v[:150] + ("…" if len(v) > 150 else "")
         det = (res + ";" + extra).strip("; ")
+    if m.get("status_on_head"):
+        det += " — **on HEAD:** " + " ".join(str(m["status_on_head"]).split())[:200]
     rows.append(f"| {d} | {what} | {det} |")
 print("| seed | change | outcome of `./check <ID>` (quick tier) with the change applied |\n|---|---|---|")
 print("\n".join(rows))
